@@ -500,14 +500,16 @@ func (m *Manager) TerminateSession(ctx context.Context, sessionID string, reason
 	}
 
 	m.mu.Lock()
-	// Remove from indexes
-	if session.MAC != nil {
+	// Remove from indexes. The addresses were released above without the lock
+	// held, so an entry may already belong to another session by now: only
+	// entries that still point at this session are removed.
+	if session.MAC != nil && m.byMAC[session.MAC.String()] == sessionID {
 		delete(m.byMAC, session.MAC.String())
 	}
-	if session.IPv4 != nil {
+	if session.IPv4 != nil && m.byIP[session.IPv4.String()] == sessionID {
 		delete(m.byIP, session.IPv4.String())
 	}
-	if session.IPv6 != nil {
+	if session.IPv6 != nil && m.byIP[session.IPv6.String()] == sessionID {
 		delete(m.byIP, session.IPv6.String())
 	}
 
